@@ -236,20 +236,30 @@ class Ctx:
         self._add(cond)
 
     def decide(self, e):
+        rid = e.get_id()
+        hit = self.implied.get(rid)
+        if hit is not None:
+            return hit[0]
+        raw = e
         e = z3.simplify(e)
         if z3.is_true(e):
+            self.implied[rid] = (True, raw)
             return True
         if z3.is_false(e):
+            self.implied[rid] = (False, raw)
             return False
         eid = e.get_id()
         if eid in self.implied:
-            return self.implied[eid][0]
+            val = self.implied[eid][0]
+            self.implied[rid] = (val, raw)
+            return val
         if self.pos < len(self.decisions):
             val, _, forced = self.decisions[self.pos]
             self.pos += 1
             if not forced:
                 self._add(e if val else z3.Not(e))
             self.implied[eid] = (val, e)
+            self.implied[rid] = (val, raw)
             return val
         ft = self._feasible(e)
         ff = self._feasible(z3.Not(e))
@@ -265,6 +275,7 @@ class Ctx:
             self.decisions.append([val, False, True])
         self.pos += 1
         self.implied[eid] = (val, e)
+        self.implied[rid] = (val, raw)
         return val
 
     def model(self, extra=()):
@@ -496,6 +507,9 @@ def _cancel(n, d):
     return n, d
 
 
+_SUB_MEMO = {}
+
+
 def _som(n):
     return z3.simplify(n, som=True)
 
@@ -504,7 +518,7 @@ class SV:
     """Symbolic real value n / prod(d).  c is the Fraction when the value is a known constant.
     t (taint) is True when a Python/numpy float took part in computing the value."""
 
-    __slots__ = ("n", "d", "c", "t")
+    __slots__ = ("n", "d", "c", "t", "_abs", "_cmpc")
     numpy_scalar_mode = False  # broadcast list/tuple operands like a numpy scalar (advanced.py)
 
     def __init__(self, n, d=(), c=None, t=False):
@@ -572,6 +586,18 @@ class SV:
             if a.c == 0:
                 r = b if op == "add" else -b
                 return r if r.t == t else SV(r.n, r.d, r.c, t)
+            if op == "sub" and (a is b or (a.d == b.d and a.n.eq(b.n))):
+                return SV.const(0, t)
+            if op == "sub" and not a.d and not b.d and not t:
+                key = (a.n.get_id(), b.n.get_id())
+                hit = _SUB_MEMO.get(key)
+                if hit is not None:
+                    return hit[2]
+                r = SV.norm(a.n - b.n, (), t)
+                if len(_SUB_MEMO) > 100000:
+                    _SUB_MEMO.clear()
+                _SUB_MEMO[key] = (a.n, b.n, r)
+                return r
             l, m1, m2 = _den_lcm(a.d, b.d)
             n1 = a.n * _prod_atoms(m1) if m1 else a.n
             n2 = b.n * _prod_atoms(m2) if m2 else b.n
@@ -661,8 +687,14 @@ class SV:
     def __abs__(self):
         if self.c is not None:
             return SV.const(abs(self.c), self.t)
+        try:
+            return self._abs
+        except AttributeError:
+            pass
         e = self.e
-        return SV(z3.If(e >= 0, e, -e), (), None, self.t)
+        r = SV(z3.If(e >= 0, e, -e), (), None, self.t)
+        self._abs = r
+        return r
 
     def sqrt(self):
         if self.c is not None:
@@ -710,6 +742,21 @@ class SV:
         if self.c is not None and o.c is not None:
             return {"lt": self.c < o.c, "le": self.c <= o.c, "gt": self.c > o.c, "ge": self.c >= o.c,
                     "eq": self.c == o.c, "ne": self.c != o.c}[op]
+        if self is o or (self.d == o.d and self.n.eq(o.n)):
+            return op in ("le", "ge", "eq")
+        if o.c is not None:
+            try:
+                memo = self._cmpc
+            except AttributeError:
+                memo = self._cmpc = {}
+            key = (op, o.c)
+            hit = memo.get(key)
+            if hit is None:
+                hit = memo[key] = self._cmp_build(o, op)
+            return hit
+        return self._cmp_build(o, op)
+
+    def _cmp_build(self, o, op):
         if op == "eq":
             return SBool(self.eq_expr(o))
         if op == "ne":
